@@ -1655,8 +1655,8 @@ def execute(case, compare=True, stop_at_first=False):
                     out['n_compared'] += n_pr
                     feats.append('prices-container-changed:%s:%s' % (case['prices'][pid_]['form'], 'later-calls-differ' if ds else 'later-calls-equal'))
                     if ds:
-                        viols.append(('prices_reuse', 'price data %s changed by the call (%s) so that later calls differ from those with a pristine copy: %s' % (
-                            f['what'], f['detail'], '; '.join(ds[:2])), ('prices', pid_)))
+                        viols.append(('prices_reuse', 'price data %s left changed by the call; later calls with it differ from those with a pristine copy: %s [the change: %s]' % (
+                            f['what'], '; '.join(ds[:2]), str(f['detail'])[:240]), ('prices', pid_)))
                         break
         if o in SETUP_OPS or o == 'set_timegrid':
             # oracle parameter_changed: a set-up "does not alter user-supplied parameters": the constructor parameters of every asset
@@ -1754,7 +1754,9 @@ def oracle(case, impl_result, do_shrink=True):
         v = dict(v)
         if do_shrink:
             try:
-                small = shrink(case, k)
+                # (the known deviation H3 is met in dozens of histories of every run: its witnesses are cut after the failing call and
+                # shortened with a small budget only)
+                small = shrink(case, k, budget=12 if classify(v) == 'H3' else 80)
                 r2 = execute(small, stop_at_first=k)
                 v2 = [x for x in r2['violations'] if x['facts']['kind'] == k]
                 if v2:
@@ -2654,7 +2656,8 @@ PARTIAL = [
     'over an EMPTY portfolio (no read recorded in the model; its loop has no variable to link); '
     '(d) the two OLD code versions of the model (rederive / scaledOwnGrid = false) were compared once with the trees before 7e0d787 / 19afd7c on the counterexample histories, not on every run',
 ]
-COMPONENTS = ['history oracle: n-th set-up on the same objects vs a fresh object tree and fresh grid (exact comparison of c, l, u, rows, mapping); constructor parameters of all assets unchanged by set-up calls (parameter_changed)',
+COMPONENTS = ['history oracle: n-th set-up on the same objects vs a fresh object tree, fresh grid and fresh price containers (exact comparison of c, l, u, rows, mapping); constructor parameters of all assets unchanged by set-up calls (parameter_changed); '
+              'price containers changed by a call give, in later calls, what a pristine copy gives (prices_changed_for_later_calls)',
               'state-model: Lean slot model (state_run) vs slots, grid pointers and windows of the real objects (every object of the asset trees, to any depth) after every operation, and what every builder read']
 RULE = ('random histories of 2-8 calls (asset/portfolio/split set-up with and without grid argument, skip nodes, fix windows, optimise incl. soft-then-plain, extract_output, dcf, fill_level, make_slp, to_json, '
         'cost samples, io.optimize) on the same objects over 1-3 grid variants (shifted, other frequency, zone, main time unit, same object reused or fresh) and price containers in 5 forms, plus slot-logic histories of 3-8 '
@@ -2666,6 +2669,15 @@ RULE = ('random histories of 2-8 calls (asset/portfolio/split set-up with and wi
         'of the call, or set), minimum run / down times and ramps on 2-4 grids of one horizon that differ in step and (6 of 10 variants) in the MAIN TIME UNIT h / d / min, calls on single assets naming a plant in 7 of 10 cases; '
         'plus stream "nested": slot-logic histories over portfolios with WRAPPERS NESTED IN WRAPPERS (a scaled asset over a structured / linked asset, scaled and structured assets inside structured assets, to depth 4, own windows and waccs on every level) '
         'and - 3 of 10 - a LINKED asset (alone, under a scaled asset, inside a structured asset, with a scaled asset among its wrapped assets), set-up / set_timegrid calls naming objects on every level of the trees (features state-tree:*, state-reader:*); '
+        'plus stream "layout" (120 histories of 3-7 calls, 4 of 10 direct set-ups of single assets): portfolios around assets whose VARIABLE LAYOUT depends on the grid or the data of the call - plants, CHPs, CHPs with minimum-load costs whose only '
+        'reason for on / start variables is a minimum run / down time of several steps on the finest grid of the case and at most one step on the coarsest (or a start cost / start fuel / idle consumption keyed into the data and zero in 4 of 10 data sets), '
+        'contracts with one or two variables per step depending on extra costs in the data or a capacity that changes sign over the horizon, storages with MIP options beside them - on 2-4 grids of one horizon (half of the variants 2-4 times the step, '
+        'some shortened / shifted / other main time unit); features layout-changed:<class>:* count set-ups in which an object has other variables than in its set-up before (not run through the state model); '
+        'plus stream "pdata" (120 histories of 3-7 calls): the user\'s price data for a period in ONE container object - dict of arrays / lists / Series with RangeIndex, dict of Series WITH DatetimeIndex, DataFrame with DatetimeIndex / RangeIndex - '
+        'handed directly to set-ups (portfolio, cost samples, single asset) and through the doors that cast data to a grid by time (Timegrid.prices_to_grid + set-up = call pf_cast, io.optimize with / without intervals, split set-up) on the period and on 1-3 '
+        'other horizons (shifted, part of the period, longer, equal grid, other step / unit); the fresh side builds the container anew for every call (= the pristine copy); '
+        'in EVERY stream: whenever a call left a price container in another state than it was created in, oracle prices_changed_for_later_calls hands a copy of the used container and a pristine one to Timegrid.prices_to_grid and to the '
+        'set-up of a fresh object tree on every grid of the case and demands equal results (features prices-container-changed:<form>:*); '
         'features stream:* / case:* count these situations; after every set-up call the constructor parameters of all assets are compared with their values after construction (oracle parameter_changed; normalisation of the form accepted); '
         'every history runs through the fresh-object oracle AND the state-model '
         'comparison; features state-op:* (model calls), state-read:* / state-writer:* (which kind of window the builders read / the slots hold); non-trivial = history with >= 2 compared set-up calls; distinct by case hash')
@@ -2706,6 +2718,11 @@ def scenarios(seed, tier):
         yield 'pdata%d' % i, gen_pdata_case(random.Random(rnd7.getrandbits(48)))
 
 
+# streams whose histories do not run through the state-model comparison (their subject is the numeric content of the problems, on plain
+# assets; the slot logic of such histories is that of the streams hist / freq / ramp)
+NO_STATE_STREAMS = ('layout',)
+
+
 def _step_of(freq):
     try:
         return int(pd.Timedelta(1, freq).total_seconds())
@@ -2743,6 +2760,20 @@ def case_features(case):
                          and h['grid'] < len(case['grids']) and (h['op'] != 'asset_setup' or h.get('asset') == a['name'])]
                 if len(set(units)) > 1:
                     f.append('case:ramp-profiles,set-up-under-several-main-time-units')
+    if case.get('stream') == 'pdata':
+        # the same container: first handed to a set-up directly, later cast to a grid of another horizon / through another door
+        direct = {}
+        for i, h in enumerate(case['history']):
+            for pid in (h['prices'] if isinstance(h.get('prices'), list) else [h['prices']] if 'prices' in h else []):
+                form = case['prices'][pid]['form']
+                if h['op'] in DIRECT_DOORS:
+                    direct.setdefault(pid, (i, h['grid']))
+                    f.append('case:pdata:direct:' + form)
+                elif h['op'] in CAST_DOORS:
+                    f.append('case:pdata:cast:' + form)
+                    if pid in direct:
+                        g1, g2 = case['grids'][direct[pid][1]], case['grids'][h['grid']]
+                        f.append('case:pdata:direct-then-cast:%s:%s' % (form, 'same-horizon' if (g1['start'], g1['end']) == (g2['start'], g2['end']) else 'other-horizon'))
     seq = [(h['grid'], h.get('reuse'), h['prices']) for h in case['history']
            if h['op'] in ('pf_setup', 'io_optimize') and not h.get('interval') and not h.get('noarg')]
     if any(a[0] == b[0] and b[1] and a[2] != b[2] for a, b in zip(seq, seq[1:])):
@@ -2759,7 +2790,10 @@ def run_case(case, drv):
         f = dict(v.get('facts', {}))
         f['class'] = classify(v)
         out['violations'].append({'oracle': v.get('oracle'), 'detail': v.get('detail'), 'facts': f, 'scenario': v.get('scenario', case)})
-    st = state_execute(case, drv)
+    if case.get('stream') in NO_STATE_STREAMS:
+        st = {'disagreements': [], 'features': [], 'ops': 0, 'observables': 0}
+    else:
+        st = state_execute(case, drv)
     out['disagreements'] = st['disagreements']
     out['features'] += st['features']
     out['evaluated'] += st['ops']
